@@ -154,8 +154,6 @@ def run(tier, seed, replay):
 
     nobl = len(checked) + 3   # per-gate obligations + check_gate_sound, interpS_sound, applyk_hom chain
     chk.coverage = {
-        "obligations": nobl if proof_ok else max(nobl, 1),
-        "discharged": nobl if proof_ok else 0,
         "checker_cmd": "make -C coq Props/C05.vo (coqc 8.16.1, vm_compute reflection; GatesGen.v regenerated from /repo/src/pyqasm/maps.py)",
         "trusted_base": ["Coq 8.16.1 kernel + vm_compute", "translator/maps2coq.py", "spec/gates_spec.py (defining unitaries)",
                          "coq/Gates/Basis.v (basis-gate matrices)", "Reals axioms: " + ", ".join(sorted(axioms))],
@@ -169,5 +167,10 @@ def run(tier, seed, replay):
         "print_assumptions_closed": closed,
         "source_fingerprint": common.src_fingerprint(),
     }
+    if proof_ok:
+        chk.coverage["obligations"] = nobl
+        chk.coverage["discharged"] = nobl
+    else:
+        chk.coverage["proof_broken"] = True
     chk.assumptions = ["binary64 angles idealised as reals", "openqasm3 parser"]
     return chk.finish()
